@@ -738,11 +738,22 @@ def run_case(sh: Shard, case: dict):
         sh.case((case["mode"], case["seed"]), nontrivial=False)
     finally:
         shutil.rmtree(d, ignore_errors=True)
+        import gc
+
+        gc.collect()  # see run_shard: automatic GC is off while cases run
     return None
 
 
 def run_shard(sh: Shard) -> None:
     rng = sh.rng("hist", sh.shard)
+    # cachebox 6.2.0 can deadlock with itself when a full GC starts inside the lambda that
+    # `locks.setdefault_with` calls while holding the cache mutex (the GC traverses the same cache).  That is a
+    # third-party liveness hazard outside this property; automatic GC is switched off while cases run and an
+    # explicit collection is done between cases, so a hang cannot make the verdict inconclusive.
+    import gc
+
+    gc.disable()
+    sh.note("gc", "automatic GC disabled during cases, gc.collect() between cases (cachebox setdefault_with/GC self-deadlock)")
     hist = {}
     n = 0
     # dedicated classes first (each shard a few), then the random mix
